@@ -195,6 +195,7 @@ type Exec struct {
 	unsatCache map[uint32]bool
 	faults   int
 	schedChoices int
+	harnessFn map[*ssa.Function]bool
 }
 
 func (ex *Exec) unsupported(msg string) pathEnd {
@@ -523,7 +524,11 @@ func (ex *Exec) nilCheck(p Ptr, what string) {
 
 func (ex *Exec) load(p Ptr) Value {
 	ex.nilCheck(p, "load")
-	ex.access(p.obj, false)
+	if len(p.path) > 0 {
+		ex.accessField(p.obj, p.path[0], false)
+	} else {
+		ex.access(p.obj, false)
+	}
 	if p.obj.bytes != nil {
 		if p.bidx == nil {
 			panic(ex.unsupported("load of whole byte array"))
@@ -549,7 +554,11 @@ func (ex *Exec) load(p Ptr) Value {
 
 func (ex *Exec) store(p Ptr, val Value) {
 	ex.nilCheck(p, "store")
-	ex.access(p.obj, true)
+	if len(p.path) > 0 {
+		ex.accessField(p.obj, p.path[0], true)
+	} else {
+		ex.access(p.obj, true)
+	}
 	if p.obj.bytes != nil {
 		if p.bidx == nil {
 			panic(ex.unsupported("store of whole byte array"))
